@@ -86,3 +86,120 @@ func orderSources(f *core.Func) []OrderSource {
 	})
 	return out
 }
+
+var sortCallees = map[string]bool{
+	"sort.Strings": true, "sort.Ints": true, "sort.Float64s": true, "sort.Slice": true, "sort.SliceStable": true,
+	"sort.Sort": true, "sort.Stable": true, "slices.Sort": true, "slices.SortFunc": true, "slices.SortStableFunc": true,
+}
+
+// isSortOf: node contains a sorting call whose first operand mentions x.
+func isSortOf(info *types.Info, n ast.Node, x *types.Var) bool {
+	for _, c := range core.Calls(n, true) {
+		if sortCallees[core.CalleeName(info, c)] && len(c.Args) >= 1 && core.Mentions(info, c.Args[0], x) {
+			return true
+		}
+	}
+	return false
+}
+
+// loopBodyShape classifies the statements of a range body over an unordered
+// source: it returns the slices that collect elements (I1) and whether every
+// other statement is a keyed store / local definition (I3-compatible).
+type bodyShape struct {
+	Collected []*types.Var
+	KeyedOnly bool     // every effect is `dst[K] = V` / delete / local definition / collect
+	Other     []string // statements outside the accepted shapes
+}
+
+func rangeBodyShape(info *types.Info, rs *ast.RangeStmt) bodyShape {
+	sh := bodyShape{KeyedOnly: true}
+	var visit func(list []ast.Stmt)
+	visit = func(list []ast.Stmt) {
+		for _, s := range list {
+			switch x := s.(type) {
+			case *ast.AssignStmt:
+				if x.Tok == token.DEFINE {
+					continue
+				}
+				ok := true
+				for i, l := range x.Lhs {
+					if id, isID := l.(*ast.Ident); isID && id.Name == "_" {
+						continue
+					}
+					if v := core.VarOf(info, l); v != nil && len(x.Rhs) == len(x.Lhs) {
+						if c, isCall := ast.Unparen(x.Rhs[i]).(*ast.CallExpr); isCall && core.CalleeName(info, c) == "builtin.append" && len(c.Args) >= 1 && core.VarOf(info, c.Args[0]) == v {
+							sh.Collected = append(sh.Collected, v)
+							continue
+						}
+						ok = false
+						continue
+					}
+					if ix, isIx := ast.Unparen(l).(*ast.IndexExpr); isIx && isMapType(info.TypeOf(ix.X)) {
+						// keyed store; append into a keyed slot makes the order observable
+						if len(x.Rhs) == len(x.Lhs) {
+							if c, isCall := ast.Unparen(x.Rhs[i]).(*ast.CallExpr); isCall && core.CalleeName(info, c) == "builtin.append" {
+								ok = false
+							}
+						}
+						continue
+					}
+					ok = false
+				}
+				if !ok {
+					sh.KeyedOnly = false
+					sh.Other = append(sh.Other, core.ExprStr(x))
+				}
+			case *ast.DeclStmt, *ast.EmptyStmt:
+			case *ast.ExprStmt:
+				if c, ok := x.X.(*ast.CallExpr); ok && core.CalleeName(info, c) == "builtin.delete" {
+					continue
+				}
+				sh.KeyedOnly = false
+				sh.Other = append(sh.Other, core.ExprStr(x))
+			case *ast.IfStmt:
+				visit(x.Body.List)
+				if x.Else != nil {
+					if b, ok := x.Else.(*ast.BlockStmt); ok {
+						visit(b.List)
+					} else {
+						visit([]ast.Stmt{x.Else})
+					}
+				}
+			case *ast.BlockStmt:
+				visit(x.List)
+			case *ast.BranchStmt:
+				if x.Tok != token.CONTINUE {
+					sh.KeyedOnly = false
+					sh.Other = append(sh.Other, x.Tok.String())
+				}
+			default:
+				sh.KeyedOnly = false
+				sh.Other = append(sh.Other, core.ExprStr(s))
+			}
+		}
+	}
+	visit(rs.Body.List)
+	return sh
+}
+
+// sortedBeforeUse: after the loop every path sorts x before any other mention.
+func sortedBeforeUse(f *core.Func, rs *ast.RangeStmt, x *types.Var) (bool, string) {
+	g := graph(f)
+	info := f.Info()
+	done := g.BlockOf(kindRangeDone, rs)
+	if done == nil {
+		return false, "loop exit not found"
+	}
+	tp, found := g.Reach(cfgxPoint{B: done, I: 0}, true, cfgxQuery{
+		Target: func(q cfgxPoint) bool {
+			n := q.Node()
+			return n != nil && core.Mentions(info, n, x) && !isSortOf(info, n, x)
+		},
+		Cut: func(q cfgxPoint) bool { return q.Node() != nil && isSortOf(info, q.Node(), x) },
+	})
+	if found {
+		return false, "`" + core.ExprStr(tp.Node()) + "` uses " + x.Name() + " before it is sorted"
+	}
+	// and it is sorted at all if used
+	return true, ""
+}
